@@ -273,11 +273,16 @@ impl EncodingVersion for EncodingVersion1 {
         Self::align(deserializer, 4)?;
         let _pid: u16 = deserializer.deserialize_primitive_type()?;
         let length: u16 = deserializer.deserialize_primitive_type()?;
-        if length > 0 {
-            deserializer.deserialize_value_with_origin_0(member, dynamic_data)
-        } else {
-            Ok(())
+        if length as usize > deserializer.reader.remaining() {
+            return Err(XTypesError::NotEnoughData);
         }
+        // (the length may include padding behind the value)
+        let end = deserializer.reader.pos + length as usize;
+        if length > 0 {
+            deserializer.deserialize_value_with_origin_0(member, dynamic_data)?;
+        }
+        deserializer.reader.pos = end;
+        Ok(())
     }
 
     /// Structures with extensibility MUTABLE, version 1 encoding
